@@ -26,6 +26,7 @@ import Jamm.Model.EncodeWrites
 import Jamm.Proofs.EncodeMetaLemmas
 import Jamm.Proofs.CommitPagesLemmas
 import Jamm.Proofs.FreelistCover
+import Jamm.Proofs.CheckFileSound
 set_option linter.unusedSectionVars false
 open Std
 
@@ -176,5 +177,24 @@ theorem accounting_exact_along_histories (s : Sys) (evs : List Ev) (s' : Sys) (h
     (p ∉ s'.cur.reach ∧ p ∈ s'.shared.free ∧ p ∉ s'.shared.pendingPages) ∨
     (p ∉ s'.cur.reach ∧ p ∉ s'.shared.free ∧ p ∈ s'.shared.pendingPages) :=
   exactly_one s' (inv_run s evs s' hi h) (covers_run s evs s' hi hcov h) p h2 hp
+
+/-! ### the checker as a whole -/
+
+/-- soundness of the executable file check that the run evaluates on the real bytes after every commit: if it
+accepts, every bucket at every nesting depth unfolds from its root page to a well-formed tree linked to its
+parent's bucket entry, and the pages reached through the trees (with overflow runs), the free-list page's run
+and the free-list entries are pairwise distinct and are exactly the pages `2 .. numPages-1` — "never two of
+these and never none" — in a file long enough to hold them -/
+theorem file_check_is_sound (mt : MetaRec) (pg : PageStore) (fileSize pagesize : Nat) (sum : FileSummary)
+    (h : checkFile mt pg fileSize pagesize = .ok sum) :
+    GoodView pg (mt.numPages + 1) mt.rootPage sum.root ∧
+    sum.root.nextInt = mt.nextInt ∧
+    sum.reach = expandRuns (sum.root.runs pg) ∧
+    (∃ fp, pg mt.freelistPage = some fp ∧ fp.body = .freelist sum.free ∧
+      sum.freelistRun = (List.range (fp.overflow + 1)).map (· + mt.freelistPage)) ∧
+    (sum.reach ++ sum.freelistRun ++ sum.free).Nodup ∧
+    (∀ p, p ∈ sum.reach ++ sum.freelistRun ++ sum.free ↔ 2 ≤ p ∧ p < mt.numPages) ∧
+    mt.numPages * pagesize ≤ fileSize :=
+  checkFile_sound mt pg fileSize pagesize sum h
 
 end Jamm.Props.C05
